@@ -97,6 +97,10 @@ def call(sc, arr):
 
 LATTICE_N = 300
 LATTICE = (-1, 0, 1, 3, 126, 127, 128, 129, 254, 255, 256, 257, 297, 299, 300, 301)
+# a series long enough for 32-bit arithmetic on the cuts to overflow (46341**2 > 2**31): positions around 0, sqrt(2**31),
+# 2**16 and n, as int64 and int32 cuts
+BIG_N = 100_000
+BIG_LATTICE = (-1, 0, 2, 46340, 46342, 50000, 65535, 65537, 99998, 100000, 100001)
 
 
 def check_scorer(acc, name, n, p, which, lattice=False):
@@ -108,13 +112,13 @@ def check_scorer(acc, name, n, p, which, lattice=False):
     key = {"scorer": name}
     base = {"scorer": name, "n": n, "p": p, "data": which}
     if lattice:
-        base["lattice"] = True
+        base["lattice"] = lattice
     try:
         sc = make().fit(X)
     except Exception as e:
         acc.violation("fit-raised", base, f"{type(e).__name__}: {e}", key)
         return
-    box = list(itertools.product(LATTICE if lattice else range(-2, n + 3), repeat=k))
+    box = list(itertools.product((BIG_LATTICE if lattice == "big" else LATTICE) if lattice else range(-2, n + 3), repeat=k))
     good = [t for t in box if valid(t, k, ms, kind, n)]
     good_clean = None
     w = None
@@ -159,7 +163,7 @@ def check_scorer(acc, name, n, p, which, lattice=False):
                 acc.nt()
         acc.outcome("valid" if ok else "invalid")
     # 2-row batches mixing a valid and an invalid row
-    if good_clean is not None and (k <= 3 or n <= 4) and not (lattice and k == 3):
+    if good_clean is not None and (k <= 3 or n <= 4) and not (lattice and k == 3) and lattice != "big":
         for t in box:
             if valid(t, k, ms, kind, n):
                 continue
@@ -231,6 +235,9 @@ def configs(tier):
             out.append((name, LATTICE_N, 1, 0, True))
             if tier != "quick" and "Cov" not in name:
                 out.append((name, LATTICE_N, 2, 0, True))
+    for name in ("L2Cost", "CUSUM", "ChangeScore(L2Cost)", "L2Saving", "GaussianVarCost") if tier == "quick" else [nm for nm in scorers(1) if scorers(1)[nm][1] <= 3]:
+        if name in scorers(1):
+            out.append((name, BIG_N, 1, 0, "big"))
     for p in (1, 2):
         for name in scorers(p):
             for n in range(1, top + 1):
@@ -245,7 +252,7 @@ def configs(tier):
 
 def shards(tier, seed):
     cf = configs(tier)
-    cf.sort(key=lambda c: -(len(LATTICE) if c[4] else c[1] + 5) ** scorers(c[2])[c[0]][1])
+    cf.sort(key=lambda c: -((30 if c[4] == "big" else len(LATTICE)) if c[4] else c[1] + 5) ** scorers(c[2])[c[0]][1])
     return cf
 
 
@@ -253,6 +260,7 @@ def bounds(tier, seed):
     return {"scorers": list(scorers(1)), "n": "1..6 (quick) / 1..11 (thorough)", "p": [1, 2],
             "lattice": {"n": LATTICE_N, "positions": list(LATTICE), "dtypes": ["int64", "int32", "int16", "uint16", "uint8", "int8"],
                         "scorers": "all with k<=3 and one local score (quick) / all, p = 1 and 2 (thorough)"},
+            "big_lattice": {"n": BIG_N, "positions": list(BIG_LATTICE), "dtypes": ["int64", "int32"], "scorers": "five with k<=3 (quick) / all with k<=3 (thorough)"},
             "box": "[-2, n+2]^k, k = 2 (costs, savings), 3 (change scores), 4 (local anomaly scores)",
             "dtypes": ["int64", "int32 (not for k=4, n>5)", "uint8 (non-negative part)"]}
 
@@ -267,7 +275,7 @@ def run_shard(shard):
 
 def replay(case):
     acc = core.Acc()
-    check_scorer(acc, case["scorer"], case["n"], case["p"], case["data"], bool(case.get("lattice")))
+    check_scorer(acc, case["scorer"], case["n"], case["p"], case["data"], case.get("lattice") or False)
     want = case.get("cuts")
     if want is not None:
         acc.violations = [v for v in acc.violations if v["case"].get("cuts") == want and v["case"].get("dtype") == case.get("dtype")]
